@@ -244,7 +244,9 @@ MANIFEST_TEXT = {
              "assignments over up to 7 live tables that may share arrays; after every op EVERY live table must be rectangular with "
              "all listed columns present and the index among them, a derived table must equal the model derivation (scalars "
              "carried), a derivation (also one that raises half way) must leave every other table's length, column list and cells "
-             "untouched, and a mutation must not change another table's structure; column expressions equal element-wise evaluation",
+             "untouched, and a mutation must not change another table's structure; column expressions equal element-wise evaluation; "
+             "new columns handed over as python lists (also ragged ones numpy refuses) and tables with one vector per row go "
+             "through the same derivations",
         design_ref="DESIGN.md 5 (C14), 4.2", note=_TB,
         technique="deterministic simulation: stateful derivation histories with aliasing against a reference table"),
     "C09": dict(
@@ -257,7 +259,8 @@ MANIFEST_TEXT = {
         design_ref="DESIGN.md 5 (C09), 4.3", note=_TB,
         technique="deterministic simulation: callback fault at every evaluation index of solve()"),
     "C10": dict(
-        text="invariants monitored while histories of step/solve/enable/disable/reload calls run on generated plants whose "
+        text="invariants monitored while histories of step/solve/enable/disable/reload calls and scipy-based runs "
+             "(run_simplex/ls_trf/l_bfgs_b/direct: limits and disabled knobs only) run on generated plants whose "
              "solution lies inside, outside or far from the limits: every new log row and the containers inside the closed limits; "
              "|delta knob| <= max_step between consecutive Jacobian rows (unit weights); a knob disabled persistently or for one "
              "call keeps its value in every row; knobs/targets disabled for one call are active again afterwards and calls with "
